@@ -1,10 +1,31 @@
 """Registry: property id -> runs per tier, bounds, assumptions."""
 
-ENV = ['env/']  # placeholder
+ENVSRC = ['env/kernel.c', 'env/proc.c', 'env/pthread.c', 'env/misc.c']
+METHODS = ['epoll-timerfd', 'epoll', 'ppoll', 'poll']
+
+A_UNREG, A_SETH, A_REG, A_TIMER, A_TASK, A_QUIT, A_TRY, A_VALIDATE = 1, 2, 4, 8, 16, 32, 64, 128
+
+ENV_ASSUMPTIONS = [
+    'kernel behaviour = the C models in /verif/env (epoll/poll/timerfd/eventfd/pipe/clock/signals/fork/wait4/pthread), '
+    'written from the man pages; they are executed by the same engine as the library',
+    'ivsx interpreter and z3 are correct; the two solver engines are cross-checked on a sample of queries',
+    'sequential consistency; allocation never fails',
+]
 
 
+def loop(name, covers=(), **params):
+    m = params.get('method')
+    return {'name': name, 'sources': ['harness/loop.c'] + ENVSRC, 'params': params, 'covers': list(covers),
+            'bounds': ' '.join('%s=%s' % kv for kv in sorted(params.items()))}
+
+
+def per_method(prefix, methods, covers=(), **params):
+    return [loop('%s.%s' % (prefix, METHODS[m]), covers, method=m, **params) for m in methods]
+
+
+# ---------------------------------------------------------------- C16
 def avl_runs(tier):
-    H = 3 if tier == 'quick' else 4
+    H = 4
     L = 4 if tier == 'quick' else 6
     covers_step = ['avl.step-insert', 'avl.step-delete', 'avl.delete-root', 'avl.delete-two-children',
                    'avl.duplicate-insert']
@@ -19,13 +40,118 @@ def avl_runs(tier):
     ]
 
 
+# ---------------------------------------------------------------- loop family
+def c01_runs(tier):
+    q = tier == 'quick'
+    ms = [0, 3] if q else [0, 1, 2, 3]
+    r = []
+    r += per_method('fd', ms, ['fd.in-handler-ran', 'fd.out-handler-ran'], K=2, R=2, acts=A_UNREG | A_REG, A=2,
+                    L=2 if q else 3, symtruth=0, wr=1, patterns=2, order=1)
+    r += per_method('timer', [0] if q else [0, 3], ['timer.handler-ran'], K=0, T=3, R=2, acts=A_TIMER, A=2,
+                    L=2 if q else 3, symtruth=0, symtime=4)
+    r += per_method('task', [1] if q else [1, 2], ['task.handler-ran'], K=0, J=3, R=2, acts=A_TASK, A=2,
+                    L=2 if q else 3, symtruth=0)
+    return r
+
+
+def c02_runs(tier):
+    q = tier == 'quick'
+    r = per_method('handlers', [0, 1, 2, 3], ['fd.in-handler-ran', 'fd.out-handler-ran', 'loop.sleeps-with-nothing-ready'],
+                   K=2, R=2, acts=A_UNREG | A_SETH, A=1, L=1 if q else 2, symtruth=1, patterns=3)
+    r += per_method('level', [0, 3] if q else [0, 1, 2, 3], ['fd.in-handler-ran', 'fd.err-handler-ran'],
+                    K=1, R=3, acts=A_SETH, A=1, L=2, symtruth=2, persist=1, patterns=3)
+    return r
+
+
+def c03_runs(tier):
+    q = tier == 'quick'
+    r = per_method('reuse', [0, 1, 2, 3], ['fd.in-handler-ran', 'fd.out-handler-ran', 'fd.err-handler-ran'],
+                   K=2, R=2, acts=A_UNREG | A_REG, A=1, L=1 if q else 2, symtruth=2, patterns=2)
+    return r
+
+
+def c04_runs(tier):
+    q = tier == 'quick'
+    r = []
+    # the timerfd optimisation needs >= 7 iterations with an unchanged earliest expiry; the
+    # millisecond-granular methods fork more per iteration (rounding) and get fewer iterations
+    for m, R in ((0, 7 if q else 9), (1, 5 if q else 7), (2, 5 if q else 7), (3, 4 if q else 5)):
+        r += per_method('subsec', [m], ['timer.handler-ran'], K=1, T=2, R=R, acts=A_TIMER, A=1,
+                        L=1 if q else 2, symtruth=0, symtime=2, patterns=1)
+    r[0]['covers'] += ['C04.timerfd-armed', 'C04.unbounded-wait-relies-on-timerfd']
+    r += per_method('fullpair', [0, 2] if q else [0, 1, 2, 3], ['timer.handler-ran'], K=0, T=2, R=2, acts=A_TIMER,
+                    A=1, L=1, symtruth=0, symtime=1)
+    return r
+
+
+def c06_runs(tier):
+    q = tier == 'quick'
+    return per_method('tasks', [0, 2] if q else [0, 1, 2, 3],
+                      ['task.handler-ran', 'C06.deferred-reregistration-observed', 'timer.handler-ran',
+                       'fd.in-handler-ran'],
+                      K=1, T=1, J=2 if q else 3, R=3, acts=A_TASK, A=2, L=3 if q else 4, symtruth=0, patterns=1)
+
+
+def c07_runs(tier):
+    q = tier == 'quick'
+    return per_method('mix', [0, 3] if q else [0, 1, 2, 3],
+                      ['C07.returned-by-quit', 'C07.returned-when-empty', 'C07.register_try-fails'],
+                      K=1, T=1, J=1, R=3, acts=A_UNREG | A_REG | A_TIMER | A_TASK | A_QUIT | A_TRY, A=1,
+                      L=2 if q else 3, symtruth=0, patterns=2, faults=1, setup_actions=1)
+
+
+LOOP_OUTSIDE = ('more descriptors/timers/tasks, more operations per callback and more loop iterations than stated; '
+                'the real kernel (the model is the trusted base); kqueue/dev-poll/port back ends (not built on Linux)')
+
 CHECKS = {
+    'C01': {'runs': c01_runs,
+            'explanation': 'C01: several objects of a kind made due in the same iteration; every callback chooses '
+                           '(by forking) to unregister+free itself or another object or to re-register; freed '
+                           'objects are really freed, so any later library access is detected at the access.',
+            'bounds': {'quick': 'K=2 fds / T=3 timers / J=3 tasks, <=2 actions per callback, 2 operations, 2 iterations',
+                       'thorough': '3 operations, all four poll methods'},
+            'outside': LOOP_OUTSIDE + '; event/raw-event/signal/wait/inotify objects are covered by C08-C11, C20 harnesses',
+            'assumptions': ENV_ASSUMPTIONS},
+    'C02': {'runs': c02_runs,
+            'explanation': 'C02: readiness of every descriptor is a solver unknown at every wait; at wait entry the '
+                           'kernel-side interest (epoll set / pollfd array) must request every wanted band; after '
+                           'dispatch every reported wanted band must have run unless cleared.',
+            'bounds': {'quick': 'K=2, 1 handler-change operation, 2 iterations; K=1 level-triggered over 3 iterations',
+                       'thorough': '2 operations'},
+            'outside': LOOP_OUTSIDE, 'assumptions': ENV_ASSUMPTIONS},
+    'C03': {'runs': c03_runs,
+            'explanation': 'C03: at every handler entry: descriptor registered, handler pointer currently installed, '
+                           'cookie, band condition reported by the preceding wait (readable/writable/hup/err unknowns), '
+                           'at most once per iteration; struct re-registration in the operation alphabet.',
+            'bounds': {'quick': 'K=2, 1 operation, 2 iterations, 4 methods', 'thorough': '2 operations'},
+            'outside': LOOP_OUTSIDE, 'assumptions': ENV_ASSUMPTIONS},
+    'C04': {'runs': c04_runs,
+            'explanation': 'C04: expiries and every clock reading are solver unknowns; wait-entry oracle bounds the '
+                           'requested sleep (or the armed timerfd) by every registered expiry relative to the clock '
+                           'reading the library used; handler-entry oracle: clock >= expiry, once.',
+            'bounds': {'quick': '2 timers + 1 always-readable fd, 7 iterations (timerfd optimisation engages), times '
+                                'within one second (nsec unknown) and the zero instant; full (sec,nsec) unknown pairs '
+                                'for 2 iterations', 'thorough': '9 iterations, 2 operations'},
+            'outside': LOOP_OUTSIDE, 'assumptions': ENV_ASSUMPTIONS},
+    'C06': {'runs': c06_runs,
+            'explanation': 'C06: tasks registered from setup and from task/fd/timer handlers (choice by forking); '
+                           'oracles: once per registration, unregistered on entry, zero timeout while a task is '
+                           'pending, re-registration by an already-run task deferred past the next poll.',
+            'bounds': {'quick': 'J=2 tasks + 1 fd + 1 timer, <=2 actions per callback, 3 operations, 3 iterations',
+                       'thorough': 'J=3, 4 operations, 4 methods'},
+            'outside': LOOP_OUTSIDE, 'assumptions': ENV_ASSUMPTIONS},
+    'C07': {'runs': c07_runs,
+            'explanation': 'C07: programs over fds/timers/tasks with iv_quit and failing iv_fd_register_try at forked '
+                           'points; oracles at wait entry (not quit, something registered, progress) and at return.',
+            'bounds': {'quick': '1 fd + 1 timer + 1 task, 2 operations, 3 iterations', 'thorough': '3 operations'},
+            'outside': LOOP_OUTSIDE + '; failing iv_event_register is checked by the C08/C07-event harness',
+            'assumptions': ENV_ASSUMPTIONS},
     'C16': {
         'runs': avl_runs,
         'explanation': 'C16: pre-state = any balanced shape (enumerated by forking) with solver-unknown strictly '
                        'increasing keys; the implementation\'s own comparisons fork the path; post-state checked by an '
                        'independent recursive walk whose order/duplicate oracles are solver queries.',
-        'bounds': {'quick': 'shapes of height <= 3 (20 shapes), histories of length 4',
+        'bounds': {'quick': 'shapes of height <= 4 (335 shapes), histories of length 4',
                    'thorough': 'shapes of height <= 4 (335 shapes), histories of length 6'},
         'outside': 'height-5 shapes (108 675) are beyond the forking budget; "logarithmic" is claimed only through '
                    'the balance invariant',
@@ -33,3 +159,6 @@ CHECKS = {
                         'ivsx interpreter + z3 are correct (engines cross-checked on a sample of queries)'],
     },
 }
+
+NOT_CLAIMED = {}
+HOOK_COMMITS = []
